@@ -22,14 +22,6 @@ func init() {
 	zzverif.Register("VerifC06DeltaLong", VerifC06DeltaLong)
 }
 
-func c06SymData(name string, n int) []uint32 {
-	d := make([]uint32, n)
-	for i := range d {
-		d[i] = zzverif.Uint32(name + "." + zzverif.Itoa(i))
-	}
-	return d
-}
-
 // lines of a journal with stretches of equally laid out lines (equal relative encodings)
 var c06DeltaLines = []string{
 	"2024-01-15 x\n",
@@ -40,15 +32,7 @@ var c06DeltaLines = []string{
 	"; c\n",
 }
 
-func verifC06Delta(maxTok, nLines int) {
-	if zzverif.Choice("level", 2) == 0 {
-		old := c06SymData("old", 5*zzverif.Choice("old.tokens", maxTok+1))
-		nw := c06SymData("new", 5*zzverif.Choice("new.tokens", maxTok+1))
-		edits := computeSemanticTokensEdits(old, nw)
-		zzverif.Observe("edits", len(edits))
-		zzverif.Reach("C06.delta.fn")
-		return
-	}
+func verifC06Delta(nLines int) {
 	ctx := context.Background()
 	// before / after: each line of the stretch is kept or dropped, independently
 	before, after := "", ""
@@ -82,5 +66,5 @@ func verifC06Delta(maxTok, nLines int) {
 	zzverif.Reach("C06.delta.end")
 }
 
-func VerifC06Delta()     { verifC06Delta(3, 4) }
-func VerifC06DeltaLong() { verifC06Delta(5, 6) }
+func VerifC06Delta()     { verifC06Delta(4) }
+func VerifC06DeltaLong() { verifC06Delta(6) }
